@@ -16,6 +16,68 @@ ToSet(s) == {s[i] : i \in 1..Len(s)}
 
 ClassesOf(p) == {ClassOf(p, env) : env \in EnvSet}
 
+\* ---------------------------------------------------------------- typed ASTs
+\* A typed tree is <<"t", type, node>>: node is an expression whose children are typed trees again.
+RECURSIVE InhabitsT(_, _)
+InhabitsT(v, ty) ==
+  CASE ty[1] = "none" -> TRUE
+    [] ty[1] = "Never" -> FALSE
+    [] ty[1] = "Bool" -> IsBool(v)
+    [] ty[1] = "True" -> v = TrueV
+    [] ty[1] = "False" -> v = FalseV
+    [] ty[1] = "Long" -> IsLong(v)
+    [] ty[1] = "String" -> IsStr(v)
+    [] ty[1] = "AnyEntity" -> IsEnt(v)
+    [] ty[1] = "Entity" -> IsEnt(v) /\ v[2] = ty[2]
+    [] ty[1] = "AnySet" -> IsSet(v)
+    [] ty[1] = "Set" -> IsSet(v) /\ \A x \in v[2] : InhabitsT(x, ty[2])
+    [] ty[1] = "Record" ->
+         /\ IsRec(v)
+         /\ \A k \in DOMAIN ty[2] : ty[2][k][2] => k \in DOMAIN v[2]
+         /\ \A k \in DOMAIN v[2] \cap DOMAIN ty[2] : InhabitsT(v[2][k], ty[2][k][1])
+         /\ (~ty[3]) => DOMAIN v[2] \subseteq DOMAIN ty[2]
+    [] ty[1] = "Ext" -> IsExt(v) /\ v[2] = ty[2]
+RECURSIVE Strip(_)
+Strip(te) ==
+  LET n == te[3] IN
+  CASE n[1] \in {"lit", "var", "slot"} -> n
+    [] n[1] = "if" -> <<"if", Strip(n[2]), Strip(n[3]), Strip(n[4])>>
+    [] n[1] \in {"and", "or"} -> <<n[1], Strip(n[2]), Strip(n[3])>>
+    [] n[1] \in {"not", "neg", "isEmpty"} -> <<n[1], Strip(n[2])>>
+    [] n[1] = "bin" -> <<"bin", n[2], Strip(n[3]), Strip(n[4])>>
+    [] n[1] = "call" -> <<"call", n[2], [i \in 1..Len(n[3]) |-> Strip(n[3][i])]>>
+    [] n[1] \in {"get", "has", "like", "is"} -> <<n[1], Strip(n[2]), n[3]>>
+    [] n[1] = "set" -> <<"set", [i \in 1..Len(n[2]) |-> Strip(n[2][i])]>>
+    [] n[1] = "record" -> <<"record", [k \in DOMAIN n[2] |-> Strip(n[2][k])], n[3]>>
+EvT(te, env) == Eval(Strip(te), env.req, env.store, <<>>)
+\* every subexpression that is actually evaluated yields a value inhabiting its static type
+RECURSIVE TOk(_, _)
+TOk(te, env) ==
+  LET n == te[3]
+      r == EvT(te, env)
+      seqOk(cs) == \A i \in 1..Len(cs) : (\A j \in 1..(i - 1) : IsOk(EvT(cs[j], env))) => TOk(cs[i], env)
+  IN /\ IsOk(r) => InhabitsT(r[2], te[2])
+     /\ CASE n[1] \in {"lit", "var", "slot"} -> TRUE
+          [] n[1] = "and" -> TOk(n[2], env) /\ (EvT(n[2], env) = Ok(TrueV) => TOk(n[3], env))
+          [] n[1] = "or" -> TOk(n[2], env) /\ (EvT(n[2], env) = Ok(FalseV) => TOk(n[3], env))
+          [] n[1] = "if" -> /\ TOk(n[2], env)
+                           /\ (EvT(n[2], env) = Ok(TrueV) => TOk(n[3], env))
+                           /\ (EvT(n[2], env) = Ok(FalseV) => TOk(n[4], env))
+          [] n[1] \in {"not", "neg", "isEmpty", "get", "has", "like", "is"} -> TOk(n[2], env)
+          [] n[1] = "bin" -> TOk(n[3], env) /\ (IsOk(EvT(n[3], env)) => TOk(n[4], env))
+          [] n[1] = "call" -> seqOk(n[3])
+          [] n[1] = "set" -> seqOk(n[2])
+          [] n[1] = "record" -> seqOk([i \in 1..Len(n[3]) |-> n[2][n[3][i]]])
+\* quick tier: a quarter of the universe; thorough tier: all of it
+TypedEnvs == IF "TIER" \in DOMAIN IOEnv /\ IOEnv.TIER = "thorough" THEN EnvSet
+             ELSE {e \in EnvSet : e.store[TD].attrs["owner"] = TU1 /\ "opt" \notin DOMAIN e.store[TU2].attrs}
+TypedOk(ev) ==
+  \A i \in 1..Len(ev.typed) :
+    LET t == ev.typed[i]
+    IN t.kind # "fail" /\
+       \A env \in {e \in TypedEnvs : e.req.principal[2] = t.principal /\ e.req.action = t.action /\ e.req.resource[2] = t.resource} :
+         TOk(t.typed, env)
+
 Explained(ev) ==
   IF ev.ev = "EnvCheck"
   THEN \* the library's own request / entity validation accepts every generated environment
@@ -27,6 +89,7 @@ Explained(ev) ==
              /\ (ev.strict /\ ev.impossible) => "true" \notin cls   \* impossible => never satisfied
              /\ ev.strict => ev.permissive
              /\ ev.must => ev.strict                           \* not vacuous
+             /\ ev.strict => TypedOk(ev)                        \* evaluated subexpressions inhabit their static types
 
 Init == l = 1 /\ bad = {}
 Next == /\ l <= Len(Rec)
